@@ -148,6 +148,12 @@ class Term(object):
         if self.wrap:
             raise OutOfSubset('arithmetic (%s) on an opaque function of a sum' % what)
 
+    def _plain(self):
+        """a wrapped term (sqrt/abs of a sum) used in further arithmetic is abstracted by a fresh constant (sound, loses information)"""
+        if not self.wrap:
+            return self
+        return Term([Mono((), fresh_real('opq'))])
+
     def _collapse(self):
         """merge all variable-free monomials into one"""
         free = [m for m in self.monos if not m.vars]
@@ -160,14 +166,14 @@ class Term(object):
 
     # ---- algebra
     def __add__(self, o):
-        o = Term.of(o)
-        self._nowrap('+'); o._nowrap('+')
+        o = Term.of(o)._plain()
+        self = self._plain()
         return Term(self.monos + o.monos)._collapse()
 
     __radd__ = __add__
 
     def __neg__(self):
-        self._nowrap('neg')
+        self = self._plain()
         return Term([Mono(m.vars, -m.body) for m in self.monos])
 
     def __sub__(self, o):
@@ -177,8 +183,8 @@ class Term(object):
         return Term.of(o) + (-self)
 
     def __mul__(self, o):
-        o = Term.of(o)
-        self._nowrap('*'); o._nowrap('*')
+        o = Term.of(o)._plain()
+        self = self._plain()
         out = []
         for a in self.monos:
             for b in o.monos:
@@ -192,8 +198,8 @@ class Term(object):
     __rmul__ = __mul__
 
     def __truediv__(self, o):
-        o = Term.of(o)
-        self._nowrap('/')
+        o = Term.of(o)._plain()
+        self = self._plain()
         if not o.is_simple():
             raise OutOfSubset('division by a sum term')
         d = o.simple_expr()
